@@ -12,7 +12,7 @@ import json
 import os
 
 from vlib.hostlist import (HL, Cli, WFGen, LIMIT, hx, unhx, parse_probe, parse_spec, same_answer, expand1, expand2,
-                           feat_big, feat_longplain, is_d17, gen_malformed, exhaustive, names_field, VERIF_CORPUS)
+                           feat_big, feat_longplain, is_d17, gen_malformed, exhaustive, names_field, VERIF_CORPUS, pinned_classes, cli_phase)
 
 LEVEL = "proof"
 PROPS = "PdshVerif.Props.C01"
@@ -170,6 +170,9 @@ def run(ctx):
         for s in load_corpus():
             dist["corpus"] += 1
             yield (s, None, "corpus")
+        for s in pinned_classes():
+            dist["pinned-classes"] = dist.get("pinned-classes", 0) + 1
+            yield (s, None, "pinned")
         n = 2500 if ctx.quick() else 40000
         for _ in range(n):
             words, s = gen.expr()
@@ -243,9 +246,13 @@ def run(ctx):
         if not ctx.replay:
             dist["generator"] = gen.dist
             nth_check(ctx, hl, nth_sample, dist)
+            ctx.log("nth done")
             find_check(ctx, hl, nth_sample, dist, cov)
-            cli_check(ctx, hl, dist, cov)
-            context_check(ctx, hl, dist, cov)
+            ctx.log("find done")
+            cli_phase(ctx, cli_check, ctx, hl, dist, cov)
+            ctx.log("cli done")
+            cli_phase(ctx, context_check, ctx, hl, dist, cov)
+            ctx.log("contexts done")
         else:
             rep = json.load(open(ctx.replay))
             if ctx_only is not None and ctx_only.get("origin") == "find":
